@@ -95,9 +95,9 @@ def zero_rows(m, idx):
     return [[Fr(0)] * len(r) if i in idx else list(r) for i, r in enumerate(m)]
 
 
-def gen_case(rng, tier_big=False, raw=False, bad_range=False):
+def gen_case(rng, tier_big=False, raw=False, bad_range=False, vanish=False):
     nl = rng.choice([1, 2, 2, 3, 3, 4, 4, 5, 6])
-    adaptive = rng.random() < 0.4
+    adaptive = vanish or rng.random() < 0.4
     ns = []
     if adaptive:
         # degenerate 0/0 step lengths are frequent when a level has one or two free dofs: use 2..5 dofs, growing
@@ -150,11 +150,23 @@ def gen_case(rng, tier_big=False, raw=False, bad_range=False):
             sl.append(m)
         lev["s"] = sl
         levels.append(lev)
+    vmode = rng.randrange(3) if vanish else -1
+    if vmode == 1 and nl >= 2:
+        # a restriction that annihilates every defect: all coarser visits work on a zero right hand side
+        lv = levels[rng.randrange(nl - 1)]
+        lv["R"] = [[Fr(0)] * len(r) for r in lv["R"]]
+    elif vmode == 2 and nl >= 2:
+        # an exact pre-smoother: the defect after pre-smoothing (hence every correction from below) vanishes
+        lv = levels[rng.randrange(nl - 1)]
+        f, a, n = lv["f"], lv["A"], lv["n"]
+        ab = [[(Fr(int(i == j)) if (i in f or j in f) else a[i][j]) for j in range(n)] for i in range(n)]
+        m = inverse(ab)
+        lv["s"][0] = [[Fr(0) if (i in f or j in f) else m[i][j] for j in range(n)] for i in range(n)]
     napp = rng.choice([1, 1, 2, 3])
     apps = []
     for k in range(napp):
         cyc = rng.choice([0, 1, 1, 2, 2])
-        cgc = rng.choice([1, 2]) if adaptive and rng.random() < 0.8 else 0
+        cgc = rng.choice([1, 2]) if adaptive and (vanish or rng.random() < 0.8) else 0
         top = rng.randrange(nl)
         crs = rng.randrange(top, nl)
         if rng.random() < 0.45:
@@ -171,7 +183,7 @@ def gen_case(rng, tier_big=False, raw=False, bad_range=False):
         d = [rnd_entry(rng, 0.1) for _ in range(ns[top])]
         while all(x == 0 for x in d):
             d = [rnd_entry(rng, 0.1) for _ in range(ns[top])]
-        if rng.random() < 0.03:
+        if rng.random() < (0.03 if vmode != 0 else 0.7):
             d = [Fr(0)] * ns[top]
         if bad_range and k == napp - 1:
             kind = rng.randrange(5)
@@ -213,7 +225,7 @@ def gen_cases(rng, count):
     cases = []
     for _ in range(count):
         k = rng.random()
-        cases.append(gen_case(rng, raw=(0.70 <= k < 0.92), bad_range=(k >= 0.92)))
+        cases.append(gen_case(rng, raw=(0.70 <= k < 0.92), bad_range=(k >= 0.92), vanish=(0.64 <= k < 0.70)))
     return cases
 
 
@@ -236,20 +248,27 @@ def enum_control_cases():
     return cases
 
 
-# Finding F-C09-1 (unchanged /repo, MultiGrid::_apply_prol, multigrid.hpp:1911-1926): the adaptive step lengths
+# Finding F-C09-1 (FIXED in /repo by "fix: MultiGrid adaptive coarse grid correction: do not divide by zero for a
+# vanishing correction"): the adaptive step lengths of MultiGrid::_apply_prol
 #   MinEnergy  omega = <def,cor> / <A cor,cor>      MinDefect  omega = <def,A cor> / <A cor,A cor>
-# are computed without guarding the denominator. Whenever the prolongated correction (or A*cor) is the zero vector -
-# a zero defect, or an inner visit whose restricted defect vanishes - the step length is 0/0: at double the returned
-# vec_cor is NaN while apply() returns Status::success; at Q the harness ends with "Q: division by zero".
-#   mgd 2 2 1 2/1 -1/1 -1/1 2/1 0 1/1 1/1 1/1 1/1 1 1/2 0/1 0/1 1/2 0 0 0 2/1 0 0 0 0 1 1/2 1 0 1 0 1 2 0/1 0/1
-#     (V-cycle, MinEnergy, zero defect)   observed: E 4 a0 R0 c1 P0 X 2 -nan -nan S 1     expected: 0 0
-#   mgd ... 1 2 1 0 1 2 1/1 0/1  (W-cycle, MinEnergy, defect (1,0): the second coarse visit gets R*def = 0)
-#     observed: E 8 a0 R0 c1 P0 a0 R0 c1 P0 X 2 -nan -nan S 1                             expected: 5/8 3/8
-# The oracle detects the 0/0 itself (DivZero) and then expects the exact harness to report ABORT:divzero; these
-# inputs are counted in the evidence (degenerate_cgc_0_over_0_cases) and kept rare (~2 %) by the generator.
+# were computed without guarding the denominator; a vanishing correction (zero defect, or an inner visit whose
+# restricted defect vanishes) gave 0/0: NaN vec_cor with Status::success at double, "Q: division by zero" at Q.
+# Now a zero denominator keeps omega = 1. The two original inputs stay in the corpus (at Q and at double) with their
+# expected results; the generator produces zero defects / vanishing restricted defects on purpose (a few %).
+F_C09_1_V = ("2 2 1 2/1 -1/1 -1/1 2/1 0 1/1 1/1 1/1 1/1 1 1/2 0/1 0/1 1/2 0 0 0 2/1 0 0 0 0 1 1/2 "
+             "1 0 1 0 1 2 0/1 0/1")   # V-cycle, MinEnergy, zero defect
+F_C09_1_W = ("2 2 1 2/1 -1/1 -1/1 2/1 0 1/1 1/1 1/1 1/1 1 1/2 0/1 0/1 1/2 0 0 0 2/1 0 0 0 0 1 1/2 "
+             "1 2 1 0 1 2 1/1 0/1")   # W-cycle, MinEnergy, defect (1,0): the second coarse visit gets R*def = 0
+REGRESSION = {  # case tail -> expected vec_cor of the (single) application
+    F_C09_1_V: [Fr(0), Fr(0)],
+    F_C09_1_W: [Fr(5, 8), Fr(3, 8)],
+}
 CORPUS = [
-    # degenerate adaptive coarse grid correction: the restricted defect vanishes -> 0/0 (finding F-C09-1 above)
-    "mg 2 2 1 2/1 -1/1 -1/1 2/1 0 1/1 1/1 1/1 1/1 1 1/2 0/1 0/1 1/2 0 0 0 2/1 0 0 0 0 1 1/2 1 2 1 0 1 2 1/1 0/1",
+    # regression inputs of finding F-C09-1 (vanishing correction with adaptive coarse grid correction)
+    "mg " + F_C09_1_V,
+    "mg " + F_C09_1_W,
+    "mg " + F_C09_1_V.replace(" 1 0 1 0 1 2 0/1 0/1", " 1 0 2 0 1 2 0/1 0/1"),   # the same with MinDefect
+    "mg " + F_C09_1_W.replace(" 1 2 1 0 1 2 1/1 0/1", " 1 2 2 0 1 2 1/1 0/1"),
     # sub-range + negative coarse level + three applications on one object
     "mg 2 2 1 2/1 -1/1 -1/1 2/1 0 1/1 1/1 1/1 1/1 1 1/2 0/1 0/1 1/2 0 0 0 2/1 0 0 0 0 1 1/2 3 2 0 0 1 2 1/1 0/1 0 2 0 -1 2 0/1 1/1 0 0 1 1 1 5/1",
     # invalid level range must be reported
@@ -327,15 +346,12 @@ def ip(x, y):
     return sum((p * q for p, q in zip(x, y)), Fr(0))
 
 
-class DivZero(Exception):
-    pass
-
-
 class RefMG:
     """the documented cycles, written as the usual recursion `x = cycle(kind, level, b)`"""
 
     def __init__(self, levels, cgc, crs):
         self.lv, self.cgc, self.crs, self.log = levels, cgc, crs, []
+        self.zero_den = 0
 
     def F(self, l, v):
         f = self.lv[l]["f"]
@@ -372,16 +388,16 @@ class RefMG:
             # minimise the energy norm of the error: <b - A x, c> / <A c, c>
             r = [p - q for p, q in zip(b, mv(lev["A"], x))]
             den = ip(mv(lev["A"], c), c)
-            if den == 0:
-                raise DivZero()
-            om = ip(r, c) / den
+            self.zero_den += int(den == 0)
+            if den != 0:  # a vanishing denominator (c = 0 for SPD A) leaves the plain correction, omega = 1
+                om = ip(r, c) / den
         elif self.cgc == 2:
             # minimise the euclidean norm of the (filtered) defect
             ac = self.F(l, mv(lev["A"], c))
             den = ip(ac, ac)
-            if den == 0:
-                raise DivZero()
-            om = ip(d, ac) / den
+            self.zero_den += int(den == 0)
+            if den != 0:
+                om = ip(d, ac) / den
         return [p + om * q for p, q in zip(x, c)]
 
     def cycle(self, kind, l, b):
@@ -454,12 +470,12 @@ def parse_out(out):
     return res
 
 
-DEGENERATE = {"count": 0}
+VANISHING = {"count": 0}  # adaptive step lengths with a zero denominator seen by the oracle
 
 
 def double_oracle(case, out):
-    """the same template code instantiated at double performs the same documented cycle (call log); supporting
-    evidence that the control flow does not depend on the scalar type"""
+    """the same template code instantiated at double performs the same documented cycle (call log) and returns a
+    finite vec_cor (in particular for vanishing corrections, finding F-C09-1); supporting evidence only"""
     try:
         op, ns, levels, apps = parse_case(case)
     except Exception as e:
@@ -472,10 +488,7 @@ def double_oracle(case, out):
     for k, (cyc, cgc, top, crs, d) in enumerate(apps):
         top, crs = level_range(nl, top, crs)
         ref = RefMG(levels, cgc, crs)
-        try:
-            ex = ref.cycle("VFW"[cyc], top, d)
-        except DivZero:
-            return None  # degenerate step length: nothing to compare (finding F-C09-1)
+        ex = ref.cycle("VFW"[cyc], top, d)
         try:
             assert o[p] == "E"
             n = int(o[p + 1])
@@ -489,7 +502,13 @@ def double_oracle(case, out):
             return "unparsable double output: " + out[:120]
         if ev != ref.log:
             return "application %d (double): call log differs from the documented cycle" % k
-        # values are not judged at double: the mock operators are arbitrary (non-contractive) matrices, so rounding
+        for a in xs:
+            if "nan" in a or "inf" in a:
+                return "application %d (double): non-finite vec_cor %s (finding F-C09-1 regressed?)" % (k, " ".join(xs))
+        want = REGRESSION.get(case.split(" ", 1)[1]) if len(apps) == 1 else None
+        if want is not None and any(abs(float.fromhex(a) - float(b)) > 1e-12 for a, b in zip(xs, want)):
+            return "regression F-C09-1 (double): vec_cor %s, expected %s" % (" ".join(xs), " ".join(map(fs, want)))
+        # beyond finiteness, values are not judged at double: the mock operators are arbitrary (non-contractive) matrices, so rounding
         # errors are amplified without bound while the exact run cancels exactly; vec_cor is judged at Q only
     return None
 
@@ -510,23 +529,14 @@ def oracle(case, out):
             break
         top, crs = rg
         ref = RefMG(levels, cgc, crs)
-        try:
-            x = ref.cycle("VFW"[cyc], top, d)
-        except DivZero:
-            verdict = "ABORT:divzero"
-            DEGENERATE["count"] += 1
-            break
+        x = ref.cycle("VFW"[cyc], top, d)
+        VANISHING["count"] += ref.zero_den
         expected.append((cyc, top, crs, ref.log, x))
     if verdict is not None:
         if out == verdict:
             return None
-        if verdict == "ABORT:divzero" and not judge_values:
-            return None  # raw stream: values (hence degenerate step lengths) are not judged
-        return "expected %s (%s), got %s" % (verdict, "invalid level range must be reported" if "range" in verdict else
-                                             "0/0 step length", out[:120])
+        return "expected %s (invalid level range must be reported), got %s" % (verdict, out[:120])
     if is_abnormal(out):
-        if out == "ABORT:divzero" and not judge_values:
-            return None
         return "valid multigrid application ended with " + out[:120]
     try:
         got = parse_out(out)
@@ -560,6 +570,9 @@ def oracle(case, out):
                 k, j, " ".join(ev[j:j + 4]), " ".join(elog[j:j + 4]))
         if st != 1:
             return "application %d: status not success" % k
+        want = REGRESSION.get(case.split(" ", 1)[1]) if len(expected) == 1 else None
+        if want is not None and x != want:
+            return "regression F-C09-1: vec_cor %s, expected %s" % (" ".join(map(fs, x)), " ".join(map(fs, want)))
         if judge_values and x != ex:
             return "application %d: vec_cor differs from the reference recursion: got %s, expected %s" % (
                 k, " ".join(map(fs, x))[:120], " ".join(map(fs, ex))[:120])
@@ -640,8 +653,6 @@ def describe(case):
 
 def canon(out):
     if out.startswith("ABORT:"):
-        if "division_by_zero" in out:
-            return "ABORT:divzero"
         if "invalid_coarse_level" in out or "invalid_topcoarse_level" in out:
             return "ABORT:range"
         if "W-cycle_sanity" in out:
@@ -680,6 +691,7 @@ def main(argv):
                                    nontrivial=nontrivial, describe=describe, signature=signature, canon=canon))
     dbl = []
     if not args.replay:
+        dbl = ["mgd " + F_C09_1_V, "mgd " + F_C09_1_W]
         for c in cases:
             if c.startswith("mg ") and len(dbl) < (300 if args.tier == "quick" else 4000):
                 try:
@@ -687,6 +699,13 @@ def main(argv):
                 except Exception:
                     continue
                 if all(level_range(len(ns), a[2], a[3]) for a in apps):
+                    dbl.append("mgd" + c[2:])
+        # plus every generated case whose defect is zero (vanishing corrections on purpose)
+        for c in cases:
+            if c.startswith("mg ") and len(dbl) < (900 if args.tier == "quick" else 12000):
+                op, ns, levels, apps = parse_case(c)
+                if any(all(x == 0 for x in a[4]) for a in apps) and all(level_range(len(ns), a[2], a[3]) for a in apps) \
+                        and "mgd" + c[2:] not in dbl[:400]:
                     dbl.append("mgd" + c[2:])
     elif cases and cases[0].startswith("mgd"):
         dbl, cases = cases, []
@@ -702,13 +721,15 @@ def main(argv):
                   "every smoother slot / coarse solver present or absent, V/F/W, every top/coarse sub-range (enumerated "
                   "exhaustively on 1x1 systems, random otherwise, negative coarse indices), fixed/MinEnergy/MinDefect "
                   "coarse grid correction, 1-4 applications per object with changing cycle/range/mode, invalid ranges; "
+                  "zero defects / annihilating restrictions / exact pre-smoothers on purpose (vanishing adaptive "
+                  "corrections, about 6 % of the cases); "
                   "non-trivial = an application with L >= 2 and cycle != V, or a smoother slot absent")
     rc = vlib.run_pipeline(PROP, args.tier, args.seed, lean, streams, t0, assumptions=[
         "Index modelled as unbounded Nat; int -> Index conversions of top/crs modelled on Int",
         "mock smoothers/coarse solvers are fixed linear operators (matrices); their status is always success",
         "single process: size_physical = size_virtual, no ghost transfer",
         "level-independent convergence rate is measured at double (thorough tier), not proved"],
-        extra_cov={"rule": stats_rule, "measured_contraction_numbers": RATES, "degenerate_cgc_0_over_0_cases": DEGENERATE,
+        extra_cov={"rule": stats_rule, "measured_contraction_numbers": RATES, "vanishing_cgc_denominator_events": VANISHING,
                    "measured_only": "worst defect reduction per cycle over 8 cycles on nested 1D P1 Poisson problems (3..511 "
                                     "unknowns, 2..8 levels, 2 damped Jacobi steps pre/post, exact coarse solve), real "
                                     "MultiGrid at double; alarm if > 0.9 or growing by > 0.05 per level beyond 4 levels"})
